@@ -94,6 +94,11 @@ def run(ctx):
         for c in isn:
             pol = +1 if c.best().endswith('is_none') else -1
             rem |= track_result(body, c.dest[0], pol).success_edges
+        # "first one recorded" may also be a `match &shared_root { None => .. }`: the None arm of the accumulator
+        acc = [l for l, (ty, nm) in enumerate(body.locals) if l > body.argc and ty.lstrip('&').replace('mut ', '').startswith('std::option::Option<std::string::String>')
+               and has(fn_origins(lv, ('copy', (l, ())), True), 'call:*CardanoTransactionsSetProof::merkle_root')]
+        for l in acc:
+            rem |= track_result(body, l, -1, 'option').success_edges
         inst = 'legacy verify: every set proof\'s root equals the common root (or is the first one recorded)'
         li = loop_info(body, gs[0].bb) if gs else None
         if not gs or li is None:
@@ -112,6 +117,12 @@ def run(ctx):
         rem = set()
         for c in oks:
             rem |= track_result(body, c.dest[0], +1).success_edges
+        # ... or `let Some(root) = shared_root else { return Err(..) }`: the Some arm of the accumulator after the loop
+        for l in acc:
+            tr_ = track_result(body, l, +1, 'option')
+            if tr_.success_edges:
+                rem |= tr_.success_edges
+                oks = oks or [True]
         if oks and rem and not success_reachable(body, rem, 'ok'):
             R.ok('b', 'R1', 'legacy verify: at least one certified set (the common root must exist)', '', lv.loc())
         else:
@@ -124,7 +135,8 @@ def run(ctx):
                     names = [fd['n'] for fd in adt['variants'][0]['fields']]
                     og = {n: fn_origins(lv, rv[5][i], True) for i, n in enumerate(names)}
                     ok = has(og['merkle_root'], 'call:*CardanoTransactionsSetProof::merkle_root') and \
-                        has(og['certified_transactions'], 'pty:CardanoTransactionsProofsMessage.certified_transactions') and \
+                        (has(og['certified_transactions'], 'pty:CardanoTransactionsProofsMessage.certified_transactions') or
+                         has(og['certified_transactions'], 'call:*CardanoTransactionsProofsMessage::transactions_hashes')) and \
                         has(fn_origins(lv, rv[5][names.index('latest_block_number')], 'adapters'), 'pty:CardanoTransactionsProofsMessage.latest_block_number') and \
                         has(fn_origins(lv, rv[5][names.index('certificate_hash')], 'adapters'), 'pty:CardanoTransactionsProofsMessage.certificate_hash')
                     inst = 'legacy verify: root <- verified proofs, transactions <- the checked sets, block number / certificate hash <- the same message'
@@ -152,13 +164,13 @@ def run(ctx):
         ms = [c for c in body.calls() if any(glob_match('*MkSetProof::merkle_root', n) for n in c.names())]
         if vs and ms:
             a = fn_origins(pv, vs[0].args[0], 'adapters') & fn_origins(pv, ms[0].args[0], 'adapters')
-            same = has(a, 'call:*proof_message_into_entity') or has(a, 'call:*TryInto*::try_into') or has(a, 'call:*TryFrom*::try_from')
+            same = has(a, 'call:*TryInto*::try_into') or has(a, 'call:*TryFrom*::try_from') or has(a, 'p#2')
         if okr and same:
             R.ok('c', 'R5', 'ProofMessageVerifier::verify: the returned root is the root of the set proof that was verified', '', pv.loc())
         else:
             R.violation('c', 'R5', 'ProofMessageVerifier::verify: the returned root is the root of the set proof that was verified', 'v2:root-origin',
                         'root from merkle_root(): %s, same entity: %s' % (okr, same), pv.loc())
-        ctx.arg_origin('c', PMV, '*ProofMessageVerifier::proof_message_into_entity', 1, require=['p#2'], desc='(message) <- proof_message')
+        ctx.sink_arg('c', PMV, MSP, 0, require=['p#2'], desc='(verified set proof) <- the proof message handed to the verifier', depth=3)
     for adt_name, vfn, itemf in ((V2T + 'VerifiedCardanoTransactionsV2', V2T + 'CardanoTransactionsProofsV2Message::verify', 'certified_transactions'),
                                  (V2B + 'VerifiedCardanoBlocks', V2B + 'CardanoBlocksProofsMessage::verify', 'certified_blocks')):
         f = ctx.try_fn('c', vfn)
